@@ -189,15 +189,15 @@ def build_family(shards, profile="dev"):
     errs = {}
     cur = None
     for line in (p.stdout or "").splitlines():
-        m = re.search(r"--> fam/[^/]+/src/(g[A-Za-z0-9_]+)\.rs", line) or re.search(r"--> src/(g[A-Za-z0-9_]+)\.rs", line)
-        if m:
+        m = re.search(r"--> (?:fam/[^/]+/)?src/([A-Za-z0-9_]+)\.rs", line)
+        if m and m.group(1) != "main":
             errs.setdefault(m.group(1), "")
     if not errs:
         raise ToolError("harness build failed outside generated grammar modules:\n" + (p.stdout or "")[-6000:])
     # attach message excerpts
     blocks = re.split(r"\n(?=error)", p.stdout or "")
     for b in blocks:
-        m = re.search(r"src/(g[A-Za-z0-9_]+)\.rs", b)
-        if m and b.startswith("error"):
+        m = re.search(r"src/([A-Za-z0-9_]+)\.rs", b)
+        if m and m.group(1) != "main" and b.startswith("error"):
             errs[m.group(1)] = (errs.get(m.group(1), "") + b[:600] + "\n")[:3000]
     return None, errs
